@@ -21,7 +21,7 @@ type TestPlan struct {
 // History is a generated program: tests, their calls, and pre-existing content.
 type History struct {
 	Tests      []TestPlan             `json:"tests"`
-	Pre        map[string][]vkit.Slot `json:"pre,omitempty"` // file option -> entries present before the first run
+	Pre        map[string][]vkit.Slot `json:"pre,omitempty"`  // file option -> entries present before the first run
 	Post       map[string][]vkit.Slot `json:"post,omitempty"` // file option -> entries other tests append after the recording run
 	Interleave bool                   `json:"interleave"`
 	Classes    vkit.Classes           `json:"-"`
